@@ -257,7 +257,8 @@ def builtin(it, name):
         "ValueError": "ValueError", "TypeError": "TypeError", "KeyError": "KeyError", "IndexError": "IndexError",
         "RuntimeError": "RuntimeError", "NotImplementedError": "NotImplementedError", "StopIteration": "StopIteration",
         "Exception": "Exception", "AssertionError": "AssertionError", "OSError": "OSError", "AttributeError": "AttributeError",
-        "ZeroDivisionError": "ZeroDivisionError",
+        "ZeroDivisionError": "ZeroDivisionError", "RuntimeWarning": "RuntimeWarning", "UserWarning": "UserWarning", "DeprecationWarning": "DeprecationWarning",
+        "FutureWarning": "FutureWarning", "Warning": "Warning", "LookupError": "LookupError", "ImportError": "ImportError", "FileNotFoundError": "FileNotFoundError",
         "NotImplemented": NotImplemented, "True": True, "False": False, "None": None,
     }
     if name in ("int", "float", "str", "list", "tuple", "dict", "bool", "set"):
